@@ -841,6 +841,8 @@ def run(cfg):
     R.analysed['translation_units'] = ['tu/lib.cpp', 'tu/tables_zonedb.cpp', 'tu/tables_zonedbx.cpp']
     composite_error_rule(R, lib)
     estimator_rule(cfg, R)
+    from . import rules_C09c
+    rules_C09c.overflow_rules(R, lib)
     nullable_rules(R, lib)
     sentinel_rules(R, lib)
     range_rules(R, lib)
@@ -853,6 +855,14 @@ def run(cfg):
 
 
 SELFTEST = [
+    dict(id='seconds-of-day-in-signed-arithmetic', file='src/ace_time/LocalDateTime.h', regex=True,
+         find=r'acetime_t seconds = \(acetime_t\) \(\(uint32_t\) epochSeconds\n\s+- \(uint32_t\) 86400 \* \(uint32_t\) days\);',
+         replace='acetime_t seconds = epochSeconds - 86400 * days;', rule='R8', construct='LocalDateTime::forEpochSeconds'),
+    dict(id='offset-seconds-factor-too-large', file='src/ace_time/TimeOffset.h', find='return (int32_t) 60 * toMinutes();', replace='return (int32_t) 70000 * toMinutes();',
+         rule='R8', construct='TimeOffset::toSeconds'),
+    dict(id='time-period-seconds-spelling-silent', file='src/ace_time/TimePeriod.h', regex=True,
+         find=r'(int32_t seconds = \(\(mHour \* \(int16_t\) 60\) \+ mMinute\)\n\s+\* \(int32_t\) 60 \+ mSecond;)', replace=r'int32_t seconds = (int32_t) mHour * 3600 + (int32_t) mMinute * 60 + mSecond;',
+         expect='silent'),
     dict(id='estimator-sees-empty-transitions', file='tools/zonedb/zone_specifier.py',
          find='        for match in matches:\n            transitions_for_match = self._find_transitions_for_match(match)\n            self.transitions.extend(transitions_for_match)\n',
          replace='        transitions: List[Transition] = []\n        for match in matches:\n            transitions.extend(self._find_transitions_for_match(match))\n        self.transitions = transitions\n',
